@@ -84,6 +84,6 @@ def engine_c20(chk, prop, tier, seed, meta):
     merged["space"] = {
         "files": "encoder-written bigWig and bigBed files on a 12-base chromosome (WL(3)/BL(3) layouts with positive lengths), zoom levels 2 and 4",
         "ranges": "every s in -3..11, e in s+1..15", "bins": "None and every 1..(e-s)", "summary": ["mean", "min", "max"],
-        "exact": [True, False], "fills (missing, oob)": [[0, "nan"], [-1, -7], ["nan", 0]],
+        "exact": [True, False], "fills (missing, oob)": [[0, "nan"], [-1, -7], ["nan", 0], [5, 2.5]],
     }
     return merged
